@@ -132,7 +132,13 @@ def rule_panic(ctx, R, roots=None, skip=()):
             for x in ss:
                 x["numeric"] = True
             allowed, why = NUMERIC[name]
-            cnt = Counter(s["kind"] for s in ss if not auto_justify(s))
+            # an element access is one kind of site whether it is written v[i] on a Vec (a call of Index/IndexMut) or on a
+            # slice (a BoundsCheck assertion): a helper that takes `&mut [u32]` instead of `&mut Vec<u32>` moves sites
+            # from one spelling to the other without adding any
+            IDX = {"assert:BoundsCheck": "element access (BoundsCheck/index)", "index": "element access (BoundsCheck/index)"}
+            cnt = Counter(IDX.get(s["kind"], s["kind"]) for s in ss if not auto_justify(s))
+            allowed = dict(allowed)
+            allowed["element access (BoundsCheck/index)"] = allowed.pop("assert:BoundsCheck", 0) + allowed.pop("index", 0)
             for k, c in sorted(cnt.items()):
                 n += c
                 R.check(c <= allowed.get(k, 0), "panic:numeric:%s:%s" % (name, k), "%s has %d not mechanically discharged %s site(s); audited: %d (%s)" % (name.rsplit("::", 1)[-1], c, k, allowed.get(k, 0), why), body.span)
